@@ -46,6 +46,12 @@ def generate(family, rng, tier):
     kind = rng.choice(KINDS)
     nm = 1 if kind in ("p2p", "decoder") else rng.choice([1, 2, 2, 3, 3])
     ns = 1 if kind in ("p2p", "arbiter") else rng.choice([1, 2, 2, 3, 3])
+    if rng.random() < 0.15:
+        # larger systems now and then (the OR-reductions and priority chains of the decoder / arbiter see 4 to 8 operands)
+        if kind not in ("p2p", "decoder"):
+            nm = rng.choice([2, 4, 5])
+        if kind not in ("p2p", "arbiter"):
+            ns = rng.choice([4, 5, 6, 7, 8])
     register = rng.random() < 0.5 if kind in ("shared", "crossbar", "decoder") else False
     # address windows: word addresses; window i = [origin_i, origin_i + 2^k_i) words
     wins, used = [], set()
